@@ -177,7 +177,7 @@ def _literal_sets(v, out=None) -> set:
 
 def universe(w: World, full: bool) -> Tuple[List[object], Dict[str, int]]:
     """Member types: atoms, containers of atoms, a few depth-2 shapes the simplifier itself produces.  The quick tier uses
-    39 of them (the property speaks of about 40), the thorough tier all 54."""
+    41 of them (the property speaks of about 40), the thorough tier all 56."""
     sla, slb, m1, ptr = w.sl("a"), w.sl("b"), ModelDict("M1"), w.ptr("P")
     atoms = [w.INT, w.FLOAT, w.BOOL, w.STR, w.NULL, w.UNKNOWN, w.PS1, w.PS2, sla, slb, m1, ModelDict("M2"), ptr, w.ptr("Q")]
 
@@ -201,7 +201,9 @@ def universe(w: World, full: bool) -> Tuple[List[object], Dict[str, int]]:
     else:
         members += [lst(w.INT), lst(w.STR), lst(w.UNKNOWN), lst(sla), lst(m1), lst(w.NULL), dct(w.INT), dct(slb), dct(m1),
                     opt(w.INT), opt(w.FLOAT), opt(w.STR), opt(w.PS1), opt(sla), opt(slb), opt(m1)]
-    members += [lst(opt(sla)), lst(opt(slb)), lst(opt(w.PS1)), lst(uni(w.PS1, sla)), opt(uni(w.INT, w.STR)),
+    # (Optional[Any] is what a position gets that held only nulls and empty lists)
+    members += [opt(w.UNKNOWN), lst(opt(w.UNKNOWN)),
+                lst(opt(sla)), lst(opt(slb)), lst(opt(w.PS1)), lst(uni(w.PS1, sla)), opt(uni(w.INT, w.STR)),
                 opt(uni(w.PS1, slb)), opt(lst(w.INT)), lst(uni(w.NULL, w.INT)), lst(uni(w.INT, w.STR))]
     if full:
         members += [lst(lst(w.INT)), lst(lst(w.UNKNOWN)), dct(opt(sla))]
